@@ -11,6 +11,12 @@ CLAIMED = {
                 text='cast/can_be/can_be_*/union of the real DataType are verified against the bit-set meet/join spec for all type sets (unbounded union length by loop invariant); idempotence, commutativity, associativity, monotonicity, glb/lub are lemmas over that spec. The 128x128 exhaustive native run only validates the Flag encoding.',
                 note='A-FLAG (enum.Flag is bitwise on .value; validated exhaustively each run), pyvc translation of the Python subset, z3 5.1.0', ref='DESIGN.md section 6, C20'),
 }
+CLAIMED['C15'] = dict(category='proof', technique='contract-based deductive verification: virtual contracts per class x query against recursive spec functions over the generated AST datatype; loop invariants; induction lemmas; z3 + cvc5',
+    text='children/external_references/contains_reference/contains_self_reference/contains_definition of all 11 expression classes, iterate() (pre-order, loop invariant + stack lemma), predicate- and event-level queries, aliases() and simple_events() are proved equal to spec functions written from the statement (free references, occurrences, binders, source order). The own-field check (check_some_self_references) is covered by a bounded stand-in only.',
+    note='fields hold values of their declared classes; generators evaluated eagerly (pure); pyvc translation; z3/cvc5', ref='DESIGN.md section 6, C15')
+CLAIMED['C02'] = dict(category='proof', technique='contract-based deductive verification of the attrs-generated HplProperty.__init__ -> sanity_check chain against the acceptance rule sane(); search loops summarised; z3',
+    text='constructing HplProperty(scope, pattern) raises HplSanityError iff not sane(scope, pattern) - clauses (i) and (ii) of the statement - for every scope kind, pattern kind and (possibly disjunctive) events, via contracts on _check_refs_defined/_check_duplicates and the C15 event contracts. Clauses (iii) duplicate channel and (iv) quantifier hygiene are decided by other constructors and are covered here by a bounded grid only.',
+    note='attrs-generated __init__ source from linecache; C15 contracts; reading of clause (ii) over event positions', ref='DESIGN.md section 6, C02')
 NOT_YET = {}
 
 
